@@ -22,6 +22,16 @@ REWRITES = {
      "            elif f.physical_quantities == PhysicalQuantities.PRESSURE:\n")], ["C18", "C17", "C15"]),
  "utils-rename-local": ("nmea2000/utils.py", [("number_int", "raw_scaled")], ["C01", "C02", "C09"]),
  "pgns-reformat": ("nmea2000/pgns.py", [("    running_bit_offset = 0\n", "    running_bit_offset = 0  # start\n")], ["C01", "C08", "C02", "C17"]),
+ "serial-buffer-renamed": ("nmea2000/ioclient.py", [("self._buffer", "self._rxbuf")], ["C20", "C12", "C13"]),
+ "key-fstring": ("nmea2000/message.py", [(
+     '                    primary_key += "_" + str(nmea_field.raw_value)\n',
+     '                    primary_key = f"{primary_key}_{nmea_field.raw_value}"\n')], ["C17"]),
+ "claim-compare-flipped": ("nmea2000/decoder.py", [(
+     "            if old_source is not None and old_source.name == data_int:",
+     "            if old_source is not None and not (data_int != old_source.name):")], ["C11", "C10", "C16"]),
+ "json-default-split": ("nmea2000/message.py", [(
+     "            if isinstance(obj, (bytes, bytearray)):",
+     "            if isinstance(obj, bytes) or isinstance(obj, bytearray):")], ["C15"]),
  "checksum-loop": ("nmea2000/utils.py", [(
      "    return sum(data[2:19]) & 0xFF", "    total = 0\n    for b in data[2:19]:\n        total = (total + b) % 256\n    return total")],
      ["C06", "C20", "C12"]),
